@@ -459,6 +459,86 @@ pub fn describe(err: Box<dyn ParseError>, source: tephra_span::SourceTextRef<'_>
     (format!("E[{}]{}", tr, body), render_panic)
 }
 
+/// A structural copy of an error (the library's error types are `Clone` with public fields; the
+/// harness's `Tagged` wrapper is rebuilt around the copy).  `None`: an error type unknown here.
+pub fn clone_err(e: &dyn ParseError) -> Option<Box<dyn ParseError>> {
+    let r = e.as_error();
+    if let Some(t) = r.downcast_ref::<Tagged>() {
+        let inner = clone_err(&*t.inner)?;
+        Some(Box::new(Tagged { tag: t.tag, inner }))
+    } else if let Some(x) = r.downcast_ref::<UnexpectedTokenError<Tok>>() {
+        Some(Box::new(x.clone()))
+    } else if let Some(x) = r.downcast_ref::<UnrecognizedTokenError>() {
+        Some(Box::new(x.clone()))
+    } else if r.downcast_ref::<RecoverError>().is_some() {
+        Some(Box::new(RecoverError))
+    } else if let Some(x) = r.downcast_ref::<ParseBoundaryError>() {
+        Some(Box::new(*x))
+    } else if let Some(x) = r.downcast_ref::<MatchBracketError>() {
+        Some(Box::new(*x))
+    } else if let Some(x) = r.downcast_ref::<RepeatCountError>() {
+        Some(Box::new(*x))
+    } else if let Some(x) = r.downcast_ref::<ProbeError>() {
+        Some(Box::new(ProbeError(x.0)))
+    } else {
+        None
+    }
+}
+
+/// The text inside `Expected::Other` of the innermost error, if that is what it carries.
+fn other_msg(e: &dyn ParseError) -> Option<String> {
+    let r = e.as_error();
+    if let Some(t) = r.downcast_ref::<Tagged>() {
+        other_msg(&*t.inner)
+    } else if let Some(x) = r.downcast_ref::<UnexpectedTokenError<Tok>>() {
+        match &x.expected {
+            Expected::Other(m) => Some(m.clone()),
+            _ => None,
+        }
+    } else {
+        None
+    }
+}
+
+/// The `report=` field: the error converted into a source report by the library
+/// (`ParseError::into_source_error` on the boxed error exactly as the parser returned it) and
+/// formatted with colour disabled, as code points.  The text of `Expected::Other` (for `pred`: the
+/// `Debug` rendering of a `simple_predicates::DnfVec`, outside the model) is replaced by `<pred>`.
+pub fn report_of(err: Box<dyn ParseError>, source: tephra_span::SourceTextRef<'_>) -> String {
+    let other = other_msg(&*err);
+    let r = std::panic::catch_unwind(std::panic::AssertUnwindSafe(|| {
+        format!("{}", err.into_source_error(source).with_color(false))
+    }));
+    match r {
+        Ok(text) => {
+            let text = match other {
+                Some(m) => text.replacen(&format!("expected {}; found ", m), "expected <pred>; found ", 1),
+                None => text,
+            };
+            crate::render::encode(&text)
+        }
+        Err(_) => "panic".to_string(),
+    }
+}
+
+/// Fill `slot` (if still empty) with the report of `err`, rendered from the error object itself;
+/// hands back a structural copy for the canonical description.
+pub fn take_report(slot: &mut Option<String>, err: Box<dyn ParseError>, source: tephra_span::SourceTextRef<'_>)
+    -> Box<dyn ParseError>
+{
+    if slot.is_some() { return err; }
+    match clone_err(&*err) {
+        Some(copy) => {
+            *slot = Some(report_of(err, source));
+            copy
+        }
+        None => {
+            *slot = Some("unknown".to_string());
+            err
+        }
+    }
+}
+
 ////////////////////////////////////////////////////////////////////////////////
 // Compilation onto the real combinators
 ////////////////////////////////////////////////////////////////////////////////
